@@ -441,6 +441,13 @@ func (c *consumerGroup) removeConsumer(cons *consumer) {
 				heap.Remove(subscribers, i)
 			}
 		}
+		// Drop the heap if this was the stream's last subscriber such that
+		// the group does not depend on members that have left, i.e. it is
+		// the same as a group recovered from a snapshot.
+		if len(*subscribers) == 0 {
+			delete(c.subscribers, stream)
+			return
+		}
 		// Rebalance the stream if the consumer being removed had assignments
 		// for it.
 		if _, ok := cons.assignments[stream]; ok {
